@@ -10,3 +10,5 @@ import Modbus.Props.C08Crc
 #print axioms Modbus.C08Crc.crc_detects_double_flip
 #print axioms Modbus.C08Crc.crc_detects
 #print axioms Modbus.C08Crc.extract_full_iff
+#print axioms Modbus.C08Crc.crc_detects_double_dist_full
+#print axioms Modbus.C08Crc.crc_detects_double_4095
